@@ -145,8 +145,36 @@ func (s *nodeSpec) decide(payload string) outcome {
 
 type vnode struct {
 	fbcontext.ContextAware
-	spec *nodeSpec
+	spec      *nodeSpec
+	earlySubs bool // subscribed in the factory, before Init
 }
+
+// nodes that subscribe when they are constructed (in the registry factory, before the executor calls Init): the route
+// component queues their subscriptions in instantiation order (preorder of the tree)
+var factorySubs [][]string
+var factorySubsMu sync.Mutex
+
+func popFactorySubs() ([]string, bool) {
+	factorySubsMu.Lock()
+	defer factorySubsMu.Unlock()
+	if len(factorySubs) == 0 {
+		return nil, false
+	}
+	x := factorySubs[0]
+	factorySubs = factorySubs[1:]
+	return x, x != nil
+}
+
+func newVsync() node.Node {
+	v := &vsync{}
+	if subs, ok := popFactorySubs(); ok {
+		v.Subscribe(subs)
+		v.earlySubs = true
+	}
+	return v
+}
+
+var errSharedRecv = errors.New("recv-fail-shared")
 
 func (v *vnode) Setup(config map[string]string) error {
 	v.spec = lookupSpec(v.ID)
@@ -157,7 +185,9 @@ func (v *vnode) Setup(config map[string]string) error {
 	v.spec.setupCount++
 	v.spec.setupSeq = nextSeq()
 	v.spec.mu.Unlock()
-	v.Subscribe(v.spec.subs)
+	if !v.earlySubs {
+		v.Subscribe(v.spec.subs)
+	}
 	return nil
 }
 
@@ -189,6 +219,9 @@ func (v *vnode) Receive(msg fbcontext.Message) error {
 	s.receipts = append(s.receipts, fmt.Sprintf("%s:%s:%s", msg.MessageType, msg.Key, hx(msg.Payload)))
 	s.mu.Unlock()
 	if s.failRecv {
+		if s.idx%3 == 2 {
+			return errSharedRecv // several recipients fail with the very same error
+		}
 		return fmt.Errorf("recv-fail-%d", s.idx)
 	}
 	return nil
@@ -443,10 +476,18 @@ type sourceScript struct {
 	blockedEmits int
 	setupDelay  map[int]time.Duration // per incarnation: how long Setup takes
 	cancelWrap  bool                  // failures wrap context.Canceled
+	errKind     string                // "retriable": failures carry (or wrap) an error with IsRetriable() == true, as kafka.Error does
 	receiptIncs []int                 // which incarnation each entry of receipts was handed to
 }
 
 var currentSource *sourceScript
+
+// retriableErr looks like a transient client error (kafka.Error has the same method): the supervisor must not treat it
+// differently from any other failed Start
+type retriableErr struct{ inc int }
+
+func (e *retriableErr) Error() string     { return fmt.Sprintf("scripted retriable source failure %d", e.inc) }
+func (e *retriableErr) IsRetriable() bool { return true }
 
 // logf records a lifecycle call (caller holds s.mu); a child process started for a scenario that ends in os.Exit streams
 // the entries to stderr, because it never gets to print an observation
@@ -537,6 +578,12 @@ func (v *vsource) Start() error {
 			if s.cancelWrap {
 				return fmt.Errorf("scripted source failure %d: %w", v.inc, context.Canceled)
 			}
+			if s.errKind == "retriable" {
+				if v.inc%2 == 1 {
+					return &retriableErr{inc: v.inc}
+				}
+				return fmt.Errorf("scripted source failure: %w", &retriableErr{inc: v.inc})
+			}
 			return fmt.Errorf("scripted source failure %d", v.inc)
 		}
 		s.mu.Lock()
@@ -600,7 +647,7 @@ func registerExecTypes() {
 		st := reflect.TypeOf("")
 		et := reflect.TypeOf(&firebolt.EventError{})
 		r := node.GetRegistry()
-		r.RegisterNodeType("vsync", func() node.Node { return &vsync{} }, st, st)
+		r.RegisterNodeType("vsync", newVsync, st, st)
 		r.RegisterNodeType("vfanout", func() node.Node { return &vfanout{} }, st, st)
 		r.RegisterNodeType("vasync", func() node.Node { return &vasync{} }, st, st)
 		r.RegisterNodeType("vhsync", func() node.Node { return &vsync{} }, et, st)
